@@ -527,6 +527,17 @@ func (v *Verifier) evalCall(env *Env, e *Expr) *Val {
 	hs := env.hs()
 	arg := func(i int) *Val { return v.eval(env, args[i]) }
 	switch name {
+	case "param":
+		// the value a parameter of the function under verification had at entry (a parameter that is assigned to is
+		// a local variable afterwards, and its plain name denotes the current value)
+		if len(args) != 1 || args[0].Kind != "ident" || env.X == nil || env.X.Entry == nil {
+			unsupportedf("param(NAME): NAME is a parameter of the function under verification")
+		}
+		p, ok := env.X.Entry.Params[args[0].Op]
+		if !ok {
+			unsupportedf("param(%s): no such parameter", args[0].Op)
+		}
+		return p
 	case "old":
 		if env.OldHeap == nil {
 			unsupportedf("old() used where no old state exists")
@@ -986,6 +997,22 @@ func (v *Verifier) evalCall(env *Env, e *Expr) *Val {
 		return intVal(env.St.heapGet(it.Visited+"$n", SInt))
 	case "base":
 		return &Val{T: types.Typ[types.UnsafePointer], Term: arg(0).Fields[0].Term}
+	case "deref":
+		// the value a pointer to a non-struct type points to (pointers to structs are dereferenced by field selection)
+		a := arg(0)
+		et := pointee(a.T)
+		if et == nil || a.Term == nil || namedStruct(et) != nil {
+			unsupportedf("deref: argument must be a pointer to a non-struct value")
+		}
+		hs := env.hs()
+		var ls []leafInfo
+		leaves(et, "", &ls)
+		ts := make([]*Term, len(ls))
+		for k, l := range ls {
+			ts[k] = Select(hs.heapGet("B$"+typeName(et)+"$"+l.Path, ArrSort(SInt, l.Sort)), a.Term)
+		}
+		k := 0
+		return unflatten(et, ts, &k)
 	case "bytesstr":
 		// the string a byte slice converts to (same term as the conversion string(b) in code)
 		a := arg(0)
